@@ -11,7 +11,8 @@ EXPLANATION = (
     "converters, each in the function that also assigns `mode` its own constant, and `false` only when a map is created "
     "(decoder / Default); nothing else writes it. R3 (osu!): the one-shot counting closure and the gradual increment function "
     "count every object kind with exactly one of n_circles/n_sliders/n_spinners (+1) and max_combo (+1), and the two are "
-    "identical arm by arm. All other counting clauses (min(n,total), monotone, caps, sums) are "
+    "identical arm by arm. R4: Difficulty::passed_objects(n) records Some(n) for every n and get_passed_objects returns exactly that n "
+    "(usize::MAX when unset) — the structural half of 'counted = min(n, total)'. All other counting clauses (min(n,total), monotone, caps, sums) are "
     "arithmetic over runtime values: NOT decided.")
 
 BM = 'model::beatmap::Beatmap'
@@ -135,6 +136,7 @@ def run(ctx):
         w = [p for p in writers if p.startswith(m + '::') and p.endswith('::convert')]
         ctx.require(bool(w), 'C14-R2', 'marks:' + m, '%s converter marks its result' % m, bad='no function of %s::convert sets is_convert = true' % m)
     r3(ctx, F)
+    r4(ctx, F)
     ctx.not_decided('all other counting clauses: n_circles+n_sliders+n_spinners = objects considered, taiko max combo = hits, mania counts, '
                     'catch fruit counts, min(n,total), monotonicity in n, saturation above the total')
 
@@ -249,3 +251,40 @@ def r3(ctx, F):
             same = all(s.get(k) == ref[1].get(k) for k in ('Circle', 'Slider', 'Spinner', '*'))
             ctx.require(same, 'C14-R3', 'siblings:' + path, 'counts per kind identical to %s: %s' % (ref[0], {k: s.get(k) for k in ('Circle', 'Slider', 'Spinner', '*')}), fn.where(),
                         bad='%s and %s count objects differently: %s vs %s' % (path, ref[0], {k: s.get(k) for k in s}, {k: ref[1].get(k) for k in ref[1]}))
+
+
+# ---- R4: passed_objects(n) records n for every n and get_passed_objects hands back exactly n (usize::MAX when unset)
+def r4(ctx, F):
+    import combin
+    from common import delta_fields
+    DIFF = 'any::difficulty::Difficulty'
+    setter = F.method(DIFF, 'passed_objects', inherent_only=True)
+    getter = F.method(DIFF, 'get_passed_objects', inherent_only=True)
+    if setter is None or getter is None:
+        ctx.violation('C14-R4', 'anchor-missing:passed_objects', 'Difficulty::passed_objects / get_passed_objects not found')
+        return
+    ctx.saw(setter)
+    ctx.saw(getter)
+    d = delta_fields(prov.prov_of(setter).return_value(), 1)
+    good = False
+    shown = '?'
+    slot = None
+    if d is not None and len(d) == 1:
+        slot = list(d)[0]
+        v = prov.strip(d[slot], names=set())
+        shown = prov.show(v, maxdepth=4)
+        good = v[0] == 'agg' and v[3] == 'Some' and as_param_path(v[4]['0'], through_calls=False) == (2, ())
+    ctx.require(good, 'C14-R4', 'setter', 'passed_objects(n) records Some(n) unchanged for every n (0 included)', setter.where(),
+                bad='Difficulty::passed_objects stores `%s`: some n (e.g. 0) are not recorded as given, so "counted = min(n, total)" fails for them' % shown)
+    rv = combin.expand(F, prov.prov_of(getter).return_value())
+    alts = rv[1] if rv[0] == 'phi' else [rv]
+    ok_default = any(prov.const_val(prov.strip(a)) == str(2 ** 64 - 1) for a in alts)
+    ok_value = False
+    for a in alts:
+        a = prov.strip(a, names=set())
+        if a[0] == 'cast' and a[1] == 'IntToInt':
+            pp = as_param_path(a[2])
+            if pp is not None and pp[0] == 1 and pp[1][:1] == (slot,) and pp[1][-1] == '0':
+                ok_value = True
+    ctx.require(ok_default and ok_value and len(alts) == 2, 'C14-R4', 'getter', 'get_passed_objects = recorded n as usize, usize::MAX when unset', getter.where(),
+                bad='Difficulty::get_passed_objects returns `%s`, expected the recorded n (as usize) or usize::MAX' % prov.show(rv, maxdepth=5))
